@@ -33,6 +33,14 @@ CID_ASSUME = [
 NODE_SCOPE = ("src/server.rs (ServerBehaviour), src/client.rs (ClientBehaviour), src/wantlist.rs, src/lib.rs glue "
               "(Model/Server, Model/Client, Model/Wantlist, Model/Node); libp2p-swarm, yamux are not in this model")
 
+LINK_SCOPE = ("the pipeline from ServerBehaviour to the wire (Model/ServerLink = Model/Server + one Model/ServerSink per connection + "
+              "libp2p-swarm 0.45.1's NotifyHandler::Any routing and connection-close order, modelled from swarm/src/lib.rs notify_any and "
+              "connection/pool/task.rs); tied to the code by replaying every node's recorded run of the real-swarm simulator (`bsdriver svalidate`)")
+
+LINK_ASSUME = [
+    "libp2p-swarm's side of Model/ServerLink is assumed (read in swarm 0.45.1, checked on every recorded run by `bsdriver svalidate`, not proved): a NotifyHandler::Any event is offered to the peer's connections in the pool, accepted by at most one whose channel is open, dropped when none is; an accepted event reaches on_behaviour_event of that connection's handler unless the connection begins to close first; ConnectionClosed carries remaining_established = the peer's other connections in the pool",
+]
+
 HANDLER_SCOPE = ("src/lib.rs ConnHandler, src/client.rs ClientConnectionHandler, src/server.rs ServerConnectionHandler, "
                  "src/incoming_stream.rs IncomingStream::poll_next (Model/ConnHandler = Model/ClientHandler + Model/ServerSink + Model/Inbound); "
                  "tied to the code by deterministic replay of handler traces recorded from real swarms (probe hook: every answer of the sinks, "
@@ -120,12 +128,16 @@ PROPS = {
     ),
     "C13": dict(
         lean_modules=["Beetswap.Props.C13"],
-        model_scope=NODE_SCOPE,
-        assumptions=NODE_ASSUME,
+        model_scope=NODE_SCOPE + "; " + LINK_SCOPE,
+        assumptions=NODE_ASSUME + LINK_ASSUME,
         streams=[
             S("node", ["--cases", 100], ["--cases", 5000, "--ops", 200]),
             S("nodebig", ["--cases", 15], ["--cases", 400]),
+            # real swarms with several connections closing from either side: when the server half is told that a
+            # peer is gone (recorded runs replayed through Model/ServerLink)
+            S("simfault", ["--cases", 100, "--conns", 3], ["--cases", 5000, "--conns", 3, "--nodes", 4]),
         ],
+        validate_slink_traces=True,
     ),
     "C04": dict(
         lean_modules=["Beetswap.Props.C04"],
@@ -167,9 +179,10 @@ PROPS = {
         ],
     ),
     "C15": dict(
+        validate_slink_traces=True,
         lean_modules=["Beetswap.Props.C15"],
-        model_scope=NODE_SCOPE + "; " + HANDLER_SCOPE,
-        assumptions=NODE_ASSUME + ["Tier 2 simulator as in C05"],
+        model_scope=NODE_SCOPE + "; " + HANDLER_SCOPE + "; " + LINK_SCOPE,
+        assumptions=NODE_ASSUME + LINK_ASSUME + ["Tier 2 simulator as in C05"],
         validate_conn_traces=True,
         validate_link_traces=True,
         streams=[
@@ -192,9 +205,10 @@ PROPS = {
         ],
     ),
     "C06": dict(
+        validate_slink_traces=True,
         lean_modules=["Beetswap.Props.C06"],
-        model_scope=NODE_SCOPE + "; " + HANDLER_SCOPE,
-        assumptions=NODE_ASSUME,
+        model_scope=NODE_SCOPE + "; " + HANDLER_SCOPE + "; " + LINK_SCOPE,
+        assumptions=NODE_ASSUME + LINK_ASSUME,
         validate_conn_traces=True,
         streams=[
             S("node", ["--cases", 120], ["--cases", 6000, "--ops", 120]),
@@ -208,9 +222,10 @@ PROPS = {
         ],
     ),
     "C07": dict(
+        validate_slink_traces=True,
         lean_modules=["Beetswap.Props.C07"],
-        model_scope=NODE_SCOPE,
-        assumptions=NODE_ASSUME,
+        model_scope=NODE_SCOPE + "; " + LINK_SCOPE,
+        assumptions=NODE_ASSUME + LINK_ASSUME,
         streams=[
             S("node", ["--cases", 120, "--peers", 4], ["--cases", 6000, "--peers", 4, "--ops", 120]),
             S("sim", ["--cases", 100, "--conns", 2], ["--cases", 5000, "--conns", 3, "--nodes", 4]),
